@@ -581,7 +581,7 @@ func RunC02(e *Env) (int, error) {
 	pool := libsim.NewPool(e.Tree.Worker("inst"), e.Workers, workerAS)
 	defer pool.Close()
 	world := filepath.Join(e.Tree.Root, "c02")
-	n := int64(e.Pick(60000, 1500000))
+	n := e.N(60000, 1500000)
 	maxLayers := e.Pick(3, 5)
 
 	exec := func(c *C02Case, run int64, tag string) (c02Obs, *wire.Result, error) {
@@ -615,6 +615,9 @@ func RunC02(e *Env) (int, error) {
 		o, res, err := exec(c, run, "run")
 		if err != nil {
 			return harness.RunResult{Err: err}
+		}
+		if res != nil {
+			e.Log(run, c, o.Clause, o.Fanout, res.Probes.Sig, res.Probes.Steps)
 		}
 		key := ""
 		if o.NonTriv {
